@@ -46,6 +46,17 @@ def check_options():
         print(nodeio.write_smtlib(sys.stdout, exprs))
         sys.exit(0)
 
+    # check output file
+    outfile = options.args().outfile
+    if os.path.isdir(outfile):
+        raise DDSMTException(
+            'output file "{}" is a directory'.format(outfile))
+    outdir = os.path.dirname(os.path.abspath(outfile))
+    if not os.path.isdir(outdir) or not os.access(outdir, os.W_OK):
+        raise DDSMTException(
+            'output file "{}" cannot be written: "{}" is not a writable '
+            'directory'.format(outfile, outdir))
+
     # check executable
     if not options.args().cmd:
         raise DDSMTException('No executable was specified as command')
